@@ -249,4 +249,30 @@ theorem dump_leaf (ids : Nat → Nat) (t : Table) (fresh : List Nat) (h : topLin
     basicSort, sortKahn, hasOverflows, hasOverflowsObjs, hasOverflowsLinks, serialize, layout, patchAll, patchLinks,
     Map.find?, Map.keys, Node.new]
 
+/-! ### uniqueness in the store -/
+
+theorem entry_unique (s : Store) (hnd : (s.map (·.2)).Nodup) (d d' : TData) (id : Nat)
+    (h : (d, id) ∈ s) (h' : (d', id) ∈ s) : d = d' := by
+  induction s with
+  | nil => cases h
+  | cons e rest ih =>
+    simp only [List.map_cons, List.nodup_cons] at hnd
+    rcases List.mem_cons.mp h with h | h <;> rcases List.mem_cons.mp h' with h' | h'
+    · rw [← h] at h'; exact ((Prod.mk.injEq _ _ _ _ ▸ h').1).symm
+    · exact absurd (List.mem_map.mpr ⟨(d', id), h', by rw [← h]⟩) hnd.1
+    · exact absurd (List.mem_map.mpr ⟨(d, id), h, by rw [← h']⟩) hnd.1
+    · exact ih hnd.2 h h'
+
+theorem content_unique (s : Store) (hp : s.Pairwise (fun a b => a.1.same b.1 = false)) (e e' : TData × Nat)
+    (h : e ∈ s) (h' : e' ∈ s) (hs : e.1.same e'.1 = true) : e = e' := by
+  induction s with
+  | nil => cases h
+  | cons x rest ih =>
+    rw [List.pairwise_cons] at hp
+    rcases List.mem_cons.mp h with h | h <;> rcases List.mem_cons.mp h' with h' | h'
+    · rw [h, h']
+    · have := hp.1 e' h'; rw [← h, hs] at this; cases this
+    · have := hp.1 e h; rw [← h', same_symm, hs] at this; cases this
+    · exact ih hp.2 h h'
+
 end FontVerif.TableWriter
